@@ -79,17 +79,61 @@ Record st := {
   codes : list (nat * nat);     (* code -> request id *)
   rtoks : list rtok;
   next : nat;                   (* refstore seq: req / at / rt ids *)
-  ncode : nat                   (* number of codes issued (canonical code ids) *)
+  ncode : nat;                  (* number of codes issued (canonical code ids) *)
+  norefresh : list string       (* clients whose refresh_token grant was withdrawn after start *)
 }.
 
-Definition init : st := {| reqs := []; codes := []; rtoks := []; next := 0; ncode := 0 |}.
+Definition init : st := {| reqs := []; codes := []; rtoks := []; next := 0; ncode := 0; norefresh := [] |}.
+
+(* How the parameters of a token request travel.  The routers read grant_type with
+   url.Values.Get / FormValue (first value; body before query) and every other field through
+   the schema decoder over r.Form (LAST value; i.e. the query string wins). *)
+Inductive place :=
+| P_body              (* everything in the body *)
+| P_query             (* everything in the query string, empty body *)
+| P_grant_query       (* grant_type in the query string only, the rest in the body *)
+| P_grant_conflict    (* body as usual, the query string carries another grant_type *)
+| P_field_conflict.   (* the body carries a decoy code / refresh_token, the query string the real one *)
+
+Inductive grant := G_code | G_refresh.
+Definition other_grant (g : grant) : grant := match g with G_code => G_refresh | G_refresh => G_code end.
+
+Definition param (A : Type) := (option A * option A)%type.       (* (in the body, in the query string) *)
+Definition form_get {A} (p : param A) : option A := match fst p with Some v => Some v | None => snd p end.
+Definition form_last {A} (p : param A) : option A := match snd p with Some v => Some v | None => fst p end.
+
+Definition place_grant (pl : place) (g : grant) : param grant :=
+  match pl with
+  | P_body | P_field_conflict => (Some g, None)
+  | P_query | P_grant_query => (None, Some g)
+  | P_grant_conflict => (Some g, Some (other_grant g))
+  end.
+Definition place_field {A} (pl : place) (v decoy : A) : param A :=
+  match pl with
+  | P_body | P_grant_query | P_grant_conflict => (Some v, None)
+  | P_query => (None, Some v)
+  | P_field_conflict => (Some decoy, Some v)
+  end.
+(* the grant the dispatcher sees / the code or refresh token the handler sees *)
+Definition read_grant (pl : place) (g : grant) : option grant := form_get (place_grant pl g).
+Definition read_field (pl : place) (v : option nat) (decoy : nat) : option nat :=
+  match v with None => None | Some x => form_last (place_field pl x decoy) end.
+Definition decoy_id := 999.
+
+(* Storage methods that can be made to fail for the duration of one code exchange
+   (refstore FaultMethod). *)
+Inductive smethod :=
+| SM_AuthRequestByCode | SM_GetClientByClientID
+| SM_CreateAccessAndRefreshTokens | SM_CreateAccessToken
+| SM_SigningKey | SM_GetPrivateClaimsFromScopes | SM_DeleteAuthRequest.
 
 Inductive op :=
 | Authorize (client uri : string) (scopes : list string) (nonce : string) (chal : option challenge)
 | Login (req : nat) (sub : string) (stamp : nat)
 | Callback (req : nat)
-| TokenCode (c : cred) (code : option nat) (uri ver : string)
-| TokenRefresh (c : cred) (rt : option nat) (scopes : list string).
+| TokenCode (pl : place) (f : option smethod) (c : cred) (code : option nat) (uri ver : string)
+| TokenRefresh (pl : place) (c : cred) (rt : option nat) (scopes : list string)
+| DropRefresh (client : string).     (* test side: the client's registration loses the refresh_token grant *)
 
 Record tokresp := {
   t_at : nat; t_at_sub : string;
@@ -109,6 +153,7 @@ Inductive out :=
 | OCbFail           (* no redirect *)
 | OTokens (t : tokresp)
 | OErr (class : nat) (code : string)
+| ODone             (* test-side operation performed *)
 | OPanic
 | OOther.
 
@@ -132,6 +177,10 @@ Definition code_req (s : st) (c : nat) : option areq :=
   | Some q => find_req s q
   | None => None
   end.
+
+(* the client is registered for the refresh_token grant right now *)
+Definition has_refresh (s : st) (c : client) : bool :=
+  c_refresh c && negb (string_in (c_id c) (norefresh s)).
 
 Definition subset (a b : list string) : bool := forallb (fun x => string_in x b) a.
 Definition is_nil {A} (l : list A) : bool := match l with [] => true | _ => false end.
@@ -200,7 +249,7 @@ Definition do_authorize (s : st) cl uri scopes nonce chal : st * out :=
         let n := S (next s) in
         ({| reqs := {| q_id := n; q_client := cl; q_uri := uri; q_scopes := scopes; q_nonce := nonce;
                        q_chal := chal; q_done := false; q_sub := ""; q_auth := 0 |} :: reqs s;
-            codes := codes s; rtoks := rtoks s; next := n; ncode := ncode s |}, OAuthz (Some n))
+            codes := codes s; rtoks := rtoks s; next := n; ncode := ncode s; norefresh := norefresh s |}, OAuthz (Some n))
       else (s, OAuthz None)
   end.
 
@@ -215,7 +264,7 @@ Definition do_login (s : st) n sub stamp : st * out :=
   | None => (s, OLogin false)
   | Some _ =>
       ({| reqs := map (set_login n sub stamp) (reqs s); codes := codes s; rtoks := rtoks s;
-          next := next s; ncode := ncode s |}, OLogin true)
+          next := next s; ncode := ncode s; norefresh := norefresh s |}, OLogin true)
   end.
 
 Definition do_callback (s : st) n : st * out :=
@@ -224,14 +273,15 @@ Definition do_callback (s : st) n : st * out :=
   | Some q =>
       if q_done q then
         let c := S (ncode s) in
-        ({| reqs := reqs s; codes := (c, n) :: codes s; rtoks := rtoks s; next := next s; ncode := c |},
+        ({| reqs := reqs s; codes := (c, n) :: codes s; rtoks := rtoks s; next := next s; ncode := c;
+           norefresh := norefresh s |},
          OCode c)
       else (s, OCbErr)
   end.
 
 (* ---------- token issuance (CreateTokenResponse over the storage) ---------- *)
 Definition issue_code (s : st) (q : areq) (c : client) : st * out :=
-  let want_rt := string_in "offline_access" (q_scopes q) && c_refresh c in
+  let want_rt := string_in "offline_access" (q_scopes q) && has_refresh s c in
   let rid := S (next s) in
   let aid := if want_rt then S rid else rid in
   let aud := [q_client q] in
@@ -241,7 +291,7 @@ Definition issue_code (s : st) (q : areq) (c : client) : st * out :=
              then {| r_id := rid; r_client := q_client q; r_sub := q_sub q; r_aud := aud;
                      r_auth := q_auth q; r_scopes := q_scopes q |} :: rtoks s
              else rtoks s in
-  ({| reqs := rest; codes := cds; rtoks := rts; next := aid; ncode := ncode s |},
+  ({| reqs := rest; codes := cds; rtoks := rts; next := aid; ncode := ncode s; norefresh := norefresh s |},
    OTokens {| t_at := aid; t_at_sub := q_sub q;
               t_jwt := if c_jwt c then Some (c_id c) else None;
               t_rt := if want_rt then Some rid else None;
@@ -260,7 +310,7 @@ Definition issue_refresh (s : st) (t : rtok) (c : client) (scopes : list string)
       rtoks := {| r_id := rid; r_client := r_client t; r_sub := r_sub t; r_aud := r_aud t;
                   r_auth := r_auth t; r_scopes := scopes |}
                :: filter (fun x => negb (Nat.eqb (r_id x) (r_id t))) (rtoks s);
-      next := aid; ncode := ncode s |},
+      next := aid; ncode := ncode s; norefresh := norefresh s |},
    OTokens {| t_at := aid; t_at_sub := r_sub t;
               t_jwt := if c_jwt c then Some (c_id c) else None;
               t_rt := Some rid;
@@ -362,13 +412,13 @@ Definition finish_refresh (r : router) (s : st) (t : rtok) (c : client) (scopes 
        end.
 
 (* AuthorizeRefreshClient: the client, or the error *)
-Definition prov_refresh_client (cr : cred) : client + string :=
+Definition prov_refresh_client (s : st) (cr : cred) : client + string :=
   match cr_assert cr with
   | Some v =>
       if f_pkjwt cf then
         match assertion_client v with
         | inr e => inr e
-        | inl c => if c_refresh c then inl c else inr E_unauthorized
+        | inl c => if has_refresh s c then inl c else inr E_unauthorized
         end
       else inr E_server                         (* errors.New(...) *)
   | None =>
@@ -376,7 +426,7 @@ Definition prov_refresh_client (cr : cred) : client + string :=
       match find_client cf id with
       | None => inr E_server                    (* storage error, unwrapped *)
       | Some c =>
-          if negb (c_refresh c) then inr E_unauthorized
+          if negb (has_refresh s c) then inr E_unauthorized
           else match c_auth c with
                | AM_PKJWT => inr E_client
                | AM_None => inl c
@@ -390,7 +440,7 @@ Definition prov_refresh (s : st) (cr : cred) (rt : option nat) (scopes : list st
   else match rt with
   | None => (s, err Provider E_request)
   | Some n =>
-      match prov_refresh_client cr with
+      match prov_refresh_client s cr with
       | inr e => (s, err Provider e)
       | inl c =>
           match find_rt s n with
@@ -404,7 +454,7 @@ Definition legacy_refresh (s : st) (cr : cred) (rt : option nat) (scopes : list 
   match legacy_client cr with
   | inr e => (s, err Legacy e)
   | inl c =>
-      if negb (c_refresh c) then (s, err Legacy E_unauthorized)
+      if negb (has_refresh s c) then (s, err Legacy E_unauthorized)
       else match rt with
       | None => (s, err Legacy E_request)
       | Some n =>
@@ -416,25 +466,84 @@ Definition legacy_refresh (s : st) (cr : cred) (rt : option nat) (scopes : list 
       end
   end.
 
+End Machine.
+
+(* ---------- storage faults during one code exchange ---------- *)
+Definition code_step (H : string -> string) (cf : cfg) (r : router) (s : st) cr code uri ver : st * out :=
+  match r with Provider => prov_code H cf s cr code uri ver | Legacy => legacy_code H cf s cr code uri ver end.
+
+Definition no_clients (cf : cfg) : cfg :=
+  {| f_post := f_post cf; f_pkjwt := f_pkjwt cf; f_refresh := f_refresh cf; clients := [] |}.
+Definition no_codes (s : st) : st :=
+  {| reqs := reqs s; codes := []; rtoks := rtoks s; next := next s; ncode := ncode s; norefresh := norefresh s |}.
+
+(* is the failing method called on the way to this (otherwise successful) response? *)
+Definition fault_reached (f : smethod) (t : tokresp) : bool :=
+  match f with
+  | SM_CreateAccessAndRefreshTokens => match t_rt t with Some _ => true | None => false end
+  | SM_CreateAccessToken => match t_rt t with Some _ => false | None => true end
+  | SM_GetPrivateClaimsFromScopes => match t_jwt t with Some _ => true | None => false end
+  | _ => true
+  end.
+
+(* A failing AuthRequestByCode is a code that does not resolve; a failing GetClientByClientID
+   is a client that does not exist; every later call (token creation, signing key, private
+   claims, removal of the request) is reached only by an exchange that passed all guards and
+   turns it into server_error.  In every faulted case nothing the history can refer to
+   changes: request and code stay, and tokens the storage may already have created were never
+   handed out (identifiers are canonicalised by the order in which they are handed out). *)
+Definition code_fault (H : string -> string) (cf : cfg) (f : smethod) (r : router) (s : st) cr code uri ver : st * out :=
+  match f with
+  | SM_AuthRequestByCode => (s, snd (code_step H cf r (no_codes s) cr code uri ver))
+  | SM_GetClientByClientID => (s, snd (code_step H (no_clients cf) r s cr code uri ver))
+  | _ => match code_step H cf r s cr code uri ver with
+         | (s', OTokens t) => if fault_reached f t then (s, err r E_server) else (s', OTokens t)
+         | other => other
+         end
+  end.
+
 (* ---------- one step ---------- *)
-Definition step (r : router) (s : st) (o : op) : st * out :=
+Definition step (H : string -> string) (cf : cfg) (r : router) (s : st) (o : op) : st * out :=
   match o with
-  | Authorize cl uri scopes nonce chal => do_authorize s cl uri scopes nonce chal
+  | Authorize cl uri scopes nonce chal => do_authorize cf s cl uri scopes nonce chal
   | Login n sub stamp => do_login s n sub stamp
   | Callback n => do_callback s n
-  | TokenCode cr code uri ver =>
-      match r with Provider => prov_code s cr code uri ver | Legacy => legacy_code s cr code uri ver end
-  | TokenRefresh cr rt scopes =>
-      match r with Provider => prov_refresh s cr rt scopes | Legacy => legacy_refresh s cr rt scopes end
+  | TokenCode pl f cr code uri ver =>
+      match read_grant pl G_code with
+      | Some G_code =>
+          let cd := read_field pl code decoy_id in
+          match f with
+          | None => code_step H cf r s cr cd uri ver
+          | Some m => code_fault H cf m r s cr cd uri ver
+          end
+      | _ => (s, err r E_unsupported)
+      end
+  | TokenRefresh pl cr rt scopes =>
+      match read_grant pl G_refresh with
+      | Some G_refresh =>
+          let n := read_field pl rt decoy_id in
+          match r with
+          | Provider => prov_refresh cf s cr n scopes
+          | Legacy => legacy_refresh cf s cr n scopes
+          end
+      | _ => (s, err r E_unsupported)
+      end
+  | DropRefresh cl =>
+      ({| reqs := reqs s; codes := codes s; rtoks := rtoks s; next := next s; ncode := ncode s;
+          norefresh := cl :: norefresh s |}, ODone)
   end.
 
 (* ---------- histories ---------- *)
 Record event := { e_pre : st; e_r : router; e_op : op; e_out : out; e_post : st }.
 
+Section Histories.
+Variable H : string -> string.
+Variable cf : cfg.
+
 Definition exec1 (hs : list event * st) (ro : router * op) : list event * st :=
   let (h, s) := hs in
   let (r, o) := ro in
-  let (s', x) := step r s o in
+  let (s', x) := step H cf r s o in
   (h ++ [{| e_pre := s; e_r := r; e_op := o; e_out := x; e_post := s' |}], s').
 
 Definition exec_from (h : list event) (s : st) (ops : list (router * op)) : list event * st :=
@@ -442,4 +551,4 @@ Definition exec_from (h : list event) (s : st) (ops : list (router * op)) : list
 Definition exec (ops : list (router * op)) : list event * st := exec_from [] init ops.
 Definition outs (ops : list (router * op)) : list out := map e_out (fst (exec ops)).
 
-End Machine.
+End Histories.
